@@ -157,7 +157,7 @@ Json generate(const std::string& tier, uint64_t seed, uint64_t index) {
     for (int i = 0; i < n; ++i) {
       Json st = Json::object();
       int m = (int)rng.below(100);
-      st.set("mode", m < 40 ? "all" : m < 65 ? "some" : m < 85 ? "none" : "seterr");
+      st.set("mode", m < 32 ? "all" : m < 44 ? "counted" : m < 65 ? "some" : m < 85 ? "none" : "seterr");
       st.set("k", (long)rng.below(6));
       script.push(st);
     }
@@ -291,6 +291,17 @@ sim::RunResult run(const Json& sc) {
                 " and " + std::to_string(vr.left) + " unread values but ReadSOLFile returned OK");
           break;
         }
+    // ... nor a vector in which one of the reads failed, even if later reads succeeded again (a consumer that asks for
+    // exactly the announced number of values, as the C flavour of the API does, keeps reading after a failure)
+    if (res.rc == 0)
+      for (auto& vr : res.vecs) {
+        size_t bad = 0; while (bad < vr.st.size() && vr.st[bad] == 0) ++bad;
+        if (bad < vr.st.size()) {
+          v.set("FAILED_VALUE_REPORTED_OK", std::string(1, vr.what) + "/" + vr.mode, "read " + std::to_string(bad) + " of vector '" + std::string(1, vr.what) + "' failed with status " + std::to_string(vr.st[bad]) +
+                " (consumer '" + vr.mode + "', " + std::to_string(vr.offered) + " values offered) but ReadSOLFile returned OK");
+          break;
+        }
+      }
     // suffix names/tables have the lengths stated in the file
     if (!bin) {
       std::vector<SufHdr> hdrs = scan_text_suffix_headers(bytes);
